@@ -2,19 +2,19 @@
 # tools/verify_seed.sh <Cxx> <k>  -- confirm a seeded change in the agent's scratch worktree /tmp/seed/Cxx:
 #   patch applies, builds, pinned tests of touched+broker packages pass, demo fails with the patch and passes without.
 P=$1; K=$2
-WT=/tmp/seed/$P; D=$WT/out/$K
+WT=${SEEDROOT:-/tmp/seed}/$P; D=$WT/out/$K
 export GOFLAGS=-mod=readonly GOPROXY=off GOSUMDB=off GOTOOLCHAIN=local
 cd $WT || exit 9
 git checkout -q -- . 2>/dev/null
 R="$P/$K"
 git apply --check $D/patch.diff 2>/dev/null || { echo "$R APPLY_FAIL"; exit 1; }
 git apply $D/patch.diff
-go build -ldflags=-checklinkname=0 ./... >/tmp/seed/build_$P_$K.log 2>&1 || { echo "$R BUILD_FAIL"; git checkout -q -- .; exit 1; }
+go build -ldflags=-checklinkname=0 ./... >/tmp/vlog_build_$P_$K.log 2>&1 || { echo "$R BUILD_FAIL"; git checkout -q -- .; exit 1; }
 # pinned suite minus common/utls (fixed ports collide under parallel runs; no seed touches it)
 PKGS="./broker/ ./common/amp/ ./common/encapsulation/ ./common/ipsetsink/... ./common/messages/ ./common/namematcher/ ./common/safelog/ ./common/websocketconn/"
-go test -vet=off -count=1 $PKGS > /tmp/seed/test_${P}_$K.log 2>&1; T=$?
-bash $D/demo.sh > /tmp/seed/demo_with_${P}_$K.log 2>&1; DW=$?
+go test -vet=off -count=1 $PKGS > /tmp/vlog_test_${P}_$K.log 2>&1; T=$?
+bash $D/demo.sh > /tmp/vlog_demo_with_${P}_$K.log 2>&1; DW=$?
 git checkout -q -- . ; git clean -fdq -e out
-bash $D/demo.sh > /tmp/seed/demo_without_${P}_$K.log 2>&1; DO=$?
+bash $D/demo.sh > /tmp/vlog_demo_without_${P}_$K.log 2>&1; DO=$?
 git checkout -q -- . ; git clean -fdq -e out
 echo "$R tests=$T demo_with_patch=$DW demo_without=$DO"
